@@ -21,7 +21,7 @@ import sqlite3
 from fractions import Fraction
 from pathlib import Path
 
-from harness.c13 import AIRPORTS
+from harness.c13 import AIRPORTS, link_named
 from harness.common import REPO, VERIF, Check, Raw, to_coq
 from translator import c14_extract, py2coq
 
@@ -942,18 +942,35 @@ def nontrivial(case, orc) -> bool:
 # ---------------------------------------------------------------------------------------------
 
 def extract(chk: Check) -> bool:
-    name = 'extract:missions/filter.py:_normalize+_spatial+to_sql'
-    try:
-        text = c14_extract.extract_all(REPO)
-    except py2coq.Untranslatable as e:
-        chk.obligations.append({'name': name, 'ok': False})
-        chk.broken(name, str(e))
+    """Each source function is extracted under its own obligation name; the link lemmas are only attempted when all
+    parts could be regenerated."""
+    src = REPO / 'src' / 'AEIC' / 'missions'
+    f, q = src / 'filter.py', src / 'query.py'
+    parts = [('header', lambda: c14_extract.HEAD),
+             ('extract:filter.py:Filter._normalize+_spatial', lambda: c14_extract.extract_normalize(f) + '\n'),
+             ('extract:filter.py:Filter.to_sql', lambda: c14_extract.extract_to_sql(f) + '\n'),
+             ('extract:filter.py:spatial condition builders', lambda: c14_extract.extract_spatial_builders(f) + '\n'),
+             ('extract:query.py:_common_conditions+Query+CountQuery+FrequentFlightQuery',
+              lambda: c14_extract.extract_query(q))]
+    text, ok = '', True
+    for name, fn in parts:
+        try:
+            t = fn()
+        except py2coq.Untranslatable as e:
+            chk.obligations.append({'name': name, 'ok': False})
+            chk.broken(name, str(e))
+            ok = False
+            continue
+        if name != 'header':
+            chk.obligations.append({'name': name, 'ok': True})
+        text += t
+    if not ok:
         return False
-    chk.obligations.append({'name': name, 'ok': True})
     if chk.coq_compile_gen('C14_Extracted', text) is None:
         return False
-    chk.notes['static_state'] = {'to_sql_guards_empty_condition_list': 'empty_guard : bool := true' in text}
-    return chk.coq_link('C14_Link.v')
+    chk.notes['static_state'] = {'to_sql_guards_empty_condition_list': 'empty_guard : bool := true' in text,
+                                 'conditions_reset_first': 'src_reset_first : bool := true' in text}
+    return link_named(chk, 'C14_Link.v')
 
 
 def check_world(chk: Check, w: World, cases, flags):
@@ -1067,6 +1084,10 @@ def run(chk: Check):
     flags = probe_flags()
     chk.notes['tree_state'] = {'conditions_reset_on_build': flags[0], 'empty_filter_ok(F12 fixed)': flags[1]}
     st = chk.notes.get('static_state')
+    if st is not None and st['conditions_reset_first'] != flags[0]:
+        chk.broken('extract-vs-probe:QueryBase._common_conditions', 'the extracted shape (conditions and parameters '
+                   f'cleared unconditionally at the start: {st["conditions_reset_first"]}) and the observed behaviour of two '
+                   f'to_sql() calls (rebuilt from scratch: {flags[0]}) disagree')
     if st is not None and st['to_sql_guards_empty_condition_list'] != flags[1]:
         chk.broken('extract-vs-probe:Filter.to_sql', 'the extracted shape of to_sql and the observed behaviour of '
                    f'Filter().to_sql() disagree (guard extracted: {st}, empty filter accepted: {flags[1]})')
